@@ -96,6 +96,12 @@ pub fn mp4_variants(d: &[u8], cfg: &Cfg, rng: &mut Rng, default_cfg: bool) -> Ve
         let mut r = BufReader::with_capacity(13, Cursor::new(d.to_vec()));
         mp4_txt(canon(mp4san::sanitize_with_config(&mut r, c())))
     })));
+    // the async entry point over a NATIVE AsyncSkip reader whose every operation is suspended once (first poll Pending):
+    // the same bytes through a reader that is merely slow
+    {
+        let sp = Sparse::from_bytes(d);
+        v.push(("async-native-suspended".into(), g(|| mp4_txt(crate::c12::run_async_every_op_suspended(&sp, cfg, false)))));
+    }
     v.push(("async-pin-box-abufreader".into(), g(|| mp4_txt(canon(mp4san::sanitize_async_with_config(Box::pin(ABufReader::with_capacity(6, ACursor::new(d.to_vec()))), c()).now_or_never().expect("ready"))))));
     v.push(("async-abufreader-abufreader".into(), g(|| mp4_txt(canon(mp4san::sanitize_async_with_config(ABufReader::with_capacity(11, ABufReader::with_capacity(2, ACursor::new(d.to_vec()))), c()).now_or_never().expect("ready"))))));
     // a real file
